@@ -36,6 +36,30 @@ Check C22_panic_safe :
     outs_ok prog noeq fams NF fuel (init iv idur lru0) ops.
 Print Assumptions C22_panic_safe.
 
+(* The sharp form: the only panics that escape a Get are the injected ones (the
+   backdate-violation assertion is unreachable, see C01_from_scratch_strict). *)
+Theorem C22_panic_safe_strict :
+  forall (prog : qkey -> body) (noeq : qkey -> bool) (fams : list N)
+         (rank : qkey -> nat) (NF : nat),
+  calls_below prog rank -> (forall q, (rank q < NF)%nat) ->
+  forall fuel, (forall p, (rank p < fuel)%nat) ->
+  forall iv idur lru0 ops,
+    (forall i, idur i <= 3) -> Forall dur_op ops -> wf_ops false ops ->
+    outs_ok_strict prog noeq fams NF fuel (init iv idur lru0) ops.
+Proof.
+  intros prog noeq fams rank NF Hrank Hbound.
+  exact (from_scratch_dur_strong_init prog noeq fams rank Hrank NF Hbound).
+Qed.
+Check C22_panic_safe_strict :
+  forall (prog : qkey -> body) (noeq : qkey -> bool) (fams : list N)
+         (rank : qkey -> nat) (NF : nat),
+  calls_below prog rank -> (forall q, (rank q < NF)%nat) ->
+  forall fuel, (forall p, (rank p < fuel)%nat) ->
+  forall iv idur lru0 ops,
+    (forall i, idur i <= 3) -> Forall dur_op ops -> wf_ops false ops ->
+    outs_ok_strict prog noeq fams NF fuel (init iv idur lru0) ops.
+Print Assumptions C22_panic_safe_strict.
+
 (* the earlier LOW-durability statement, now a corollary *)
 Theorem C22_panic_safe_partial :
   forall (prog : qkey -> body) (noeq : qkey -> bool) (fams : list N)
